@@ -67,10 +67,22 @@ func init() {
 			for n := 1; n <= c10n(tier); n++ {
 				js = append(js, &Job{Harness: "C10Round", Params: map[string]int{"n": n}})
 			}
+			maxSeg := 3
+			if tier == "thorough" {
+				maxSeg = 4
+			}
+			for lim := 0; lim < 3; lim++ {
+				for k := 0; k <= maxSeg; k++ {
+					if lim > 0 && k == maxSeg {
+						continue
+					}
+					js = append(js, &Job{Harness: "C10Segments", Params: map[string]int{"k": k, "limits": lim}})
+				}
+			}
 			return js
 		},
 		Bounds: func(tier string) string {
-			return fmt.Sprintf("C10(a): every pattern string of 0..%d bytes over the full byte alphabet with default limits, 0..%d bytes with (maxParams,maxKeyBytes) in {(1,1),(2,3)}; C10(b): every accepted pattern of 1..%d bytes as the only route, with every substitution of 1..2 bytes per named parameter and 1..3 bytes per catch-all (full alphabet minus the delimiters)", c10n(tier), c10n(tier)-1, c10n(tier))
+			return fmt.Sprintf("C10(a): every pattern string of 0..%d bytes over the full byte alphabet with default limits, 0..%d bytes with (maxParams,maxKeyBytes) in {(1,1),(2,3)}; C10(b): every accepted pattern of 1..%d bytes as the only route, with every substitution of 1..2 bytes per named parameter and 1..3 bytes per catch-all (full alphabet minus the delimiters); plus patterns assembled from 14 host forms x up to 3 (quick) / 4 (thorough) segments out of 17 segment forms (valid and malformed wildcards, mid-segment forms), optional trailing slash, three limit configurations", c10n(tier), c10n(tier)-1, c10n(tier))
 		},
 		RequiredCovers: []string{"accepted", "rejected", "accepted with hostname", "accepted with wildcard", "dont-care region", "round trip with wildcards", "round trip with hostname"},
 		Assumptions: []string{
@@ -199,7 +211,10 @@ func init() {
 			for s := 0; s < nsets; s++ {
 				for lh := 0; lh <= maxLh; lh++ {
 					for lp := 1; lp <= maxLp; lp++ {
-						js = append(js, &Job{Harness: "C09Host", Params: map[string]int{"set": s, "lh": lh, "lp": lp}})
+						js = append(js, &Job{Harness: "C09Host", Params: map[string]int{"set": s, "lh": lh, "lp": lp, "hist": 0}})
+						if lh >= 1 && lh <= 3 && lp <= 2 {
+							js = append(js, &Job{Harness: "C09Host", Params: map[string]int{"set": s, "lh": lh, "lp": lp, "hist": 1}})
+						}
 					}
 				}
 			}
@@ -209,7 +224,7 @@ func init() {
 			if tier == "thorough" {
 				return "204 corpus route sets (hostname and path-only) x every Host header of 0..7 bytes (ports, trailing dot, extra labels/characters, brackets) x every path of 1..4 bytes"
 			}
-			return "64 corpus route sets (hostname and path-only) x every Host header of 0..5 bytes (ports, trailing dot, extra labels/characters, brackets) x every path of 1..3 bytes"
+			return "64 corpus route sets (hostname and path-only) x every Host header of 0..5 bytes (ports, trailing dot, extra labels/characters, brackets) x every path of 1..3 bytes; and the same routers after every hostname was extended by a label, registered and deleted again (Host 1..3, path 1..2)"
 		},
 		RequiredCovers: []string{"matched via hostname", "host ignored (no hostname routes)", "fallback to path-only", "host with port matched", "host with trailing dot matched"},
 	}
@@ -516,9 +531,9 @@ func init() {
 			return js
 		},
 		Bounds: func(tier string) string {
-			return "10 panic values (error, wrapped and bare http.ErrAbortHandler, string, custom struct, *net.OpError over *os.SyscallError with 'broken pipe' / 'Connection reset by peer' / other, a run-time error, OpError without SyscallError) x 3 response progress states x 4 handler kinds (route, 404, 405, OPTIONS); redaction: each of the six credential header names in every capitalisation (2^letters spellings per name, decided by the solver on a byte-wise case constraint); panics inside Updates/View are covered by C04"
+			return "10 panic values (error, wrapped and bare http.ErrAbortHandler, string, custom struct, *net.OpError over *os.SyscallError with 'broken pipe' / 'Connection reset by peer' / other, a run-time error, OpError without SyscallError) x 4 response progress states (nothing, header, partial body, flushed on a writer offering FlushError) x 4 handler kinds (route, 404, 405, OPTIONS); redaction: each of the six credential header names in every capitalisation (2^letters spellings per name, decided by the solver on a byte-wise case constraint); panics inside Updates/View are covered by C04"
 		},
-		RequiredCovers: []string{"ErrAbortHandler re-raised", "500 written", "broken connection: nothing written", "spelled as in the list", "other capitalisation"},
+		RequiredCovers: []string{"ErrAbortHandler re-raised", "500 written", "broken connection: nothing written", "panic after a flush", "spelled as in the list", "other capitalisation"},
 		Assumptions: []string{
 			"httputil.DumpRequest modelled: request line, Host line, one 'Key: value' line per stored header value with keys as stored, CRLF separated (natively the real DumpRequest is used on replay)",
 			"log/slog front end modelled as in C20; runtime.Callers returns no frames (stack text not asserted)",
@@ -604,7 +619,9 @@ func threadJobs(prop string) []*Job {
 	case "C13":
 		var js []*Job
 		for g := 0; g <= 4; g++ {
-			js = append(js, &Job{Harness: "C13Conc", Params: map[string]int{"g": g}})
+			for api := 0; api < 3; api++ {
+				js = append(js, &Job{Harness: "C13Conc", Params: map[string]int{"g": g, "api": api}})
+			}
 		}
 		return js
 	case "C12":
@@ -738,9 +755,7 @@ func init() {
 				}
 			}
 			js = append(js, &Job{Harness: "C12Conc", Params: map[string]int{}})
-			for g := 0; g <= 4; g++ {
-				js = append(js, &Job{Harness: "C13Conc", Params: map[string]int{"g": g}})
-			}
+			js = append(js, threadJobs("C13")...)
 			return js
 		},
 		Bounds: func(tier string) string {
@@ -748,7 +763,7 @@ func init() {
 			if tier == "thorough" {
 				sets, pre = 11, 3
 			}
-			return fmt.Sprintf("%d start routers x 7 thread programs (Handle||Handle on different routes from a 7-pattern pool; Handle||Handle on the same route; Update||Delete; two-route Updates || reader doing Has,Has,Iter.All,Has; Handle || ServeHTTP || ServeHTTP on routes sharing nodes; aborted write txn || reader; Update of a parent + Handle below it + marker in one Updates || reader) plus ServeHTTP||ServeHTTP with per-request tokens and NewRoute||NewRoute with 0..4 global middleware: every interleaving at synchronisation granularity (mutex Lock, atomic Load/Store, sync.Pool Get/Put, thread start/exit) with at most %d pre-emptive context switches; <= 3 threads besides the joiner; happens-before race monitor on every heap cell", sets, pre)
+			return fmt.Sprintf("%d start routers x 7 thread programs (Handle||Handle on different routes from a 7-pattern pool; Handle||Handle on the same route; Update||Delete; two-route Updates || reader doing Has,Has,Iter.All,Has; Handle || ServeHTTP || ServeHTTP on routes sharing nodes; aborted write txn || reader; Update of a parent + Handle below it + marker in one Updates || reader) plus ServeHTTP||ServeHTTP with per-request tokens and NewRoute||NewRoute with 0..4 global middleware registered through WithMiddleware, WithMiddlewareFor or followed by DefaultOptions: every interleaving at synchronisation granularity (mutex Lock, atomic Load/Store, sync.Pool Get/Put, thread start/exit) with at most %d pre-emptive context switches; <= 3 threads besides the joiner; happens-before race monitor on every heap cell", sets, pre)
 		},
 		RequiredCovers: []string{"W||W different routes", "W||W same route", "Update||Delete", "txn||reader", "W||R||R", "abort||reader", "update+write-below||reader", "concurrent requests", "concurrent NewRoute"},
 		Assumptions: []string{
